@@ -14,7 +14,7 @@ LEVEL = 'exploration'
 RULE = ('Hypothesis rule-based state machine. State: a pool of trees (fixed seeds covering every array-elision form, '
         'comments, obfuscatable scopes, plus G1 programs added by a rule, some parsed with comment capture) and a pool '
         'of printer objects (pretty with drawn indent, all 16 minify flag combinations, Unparser(rules=(obfuscate, '
-        'indent)), default Unparser). Rules: print_full(printer, tree); print_abandon(printer, tree, k) (k fragments, '
+        'indent)), default Unparser, and Unparsers that share rule objects: one minify / indent / obfuscate rule configuring several of them). Rules: print_full(printer, tree); print_abandon(printer, tree, k) (k fragments, '
         'then the generator is closed or dropped); print_raising(printer) (a tree holding a node kind without '
         'definition); new_printer; new_tree; shortcut(text, kind). Model: the fragment list a *fresh* printer of the '
         'same configuration produced for the tree the first time the pair was seen; every later full print must '
@@ -39,16 +39,41 @@ SEED_SOURCES = [
     ('x = "a\\\nb" + 1 .y; L: while (1) { break L; }', False),
 ]
 
-CONFIGS = [('pretty', '  '), ('pretty', '\t'), ('pretty', ''), ('default',)] + \
+CONFIGS = [('pretty', '  '), ('pretty', '\t'), ('pretty', ''), ('default',), ('shared_min',), ('shared_min_indent',),
+           ('shared_indent',), ('shared_indent_obf',)] + \
           [('min', o, g, s, d) for o in (False, True) for g in (False, True) for s in (False, True)
            for d in (False, True)] + \
           [('obf_indent', g, s) for g in (False, True) for s in (False, True)]
+
+
+_SHARED_RULES = {}
+
+
+def shared_rule(name):
+    """rule setup functions are plain callables; one object may configure several Unparsers"""
+    from calmjs.parse import rules
+    from calmjs.parse.lexers.es5 import Lexer
+    if name not in _SHARED_RULES:
+        _SHARED_RULES[name] = {
+            'min': lambda: rules.minify(drop_semi=False),
+            'indent': lambda: rules.indent('  '),
+            'obf': lambda: rules.obfuscate(reserved_keywords=Lexer.keywords_dict.keys()),
+        }[name]()
+    return _SHARED_RULES[name]
 
 
 def make_printer(cfg):
     from calmjs.parse.unparsers.es5 import pretty_printer, minify_printer, Unparser
     from calmjs.parse import rules
     from calmjs.parse.lexers.es5 import Lexer
+    if cfg[0] == 'shared_min':
+        return Unparser(rules=(shared_rule('min'),))
+    if cfg[0] == 'shared_min_indent':
+        return Unparser(rules=(shared_rule('min'), shared_rule('indent')))
+    if cfg[0] == 'shared_indent':
+        return Unparser(rules=(shared_rule('indent'),))
+    if cfg[0] == 'shared_indent_obf':
+        return Unparser(rules=(shared_rule('obf'), shared_rule('indent')))
     if cfg[0] == 'pretty':
         return pretty_printer(cfg[1])
     if cfg[0] == 'default':
@@ -353,6 +378,12 @@ class Machine(RuleBasedStateMachine):
                                                'minify_shadow', 'parse']), wc=st.booleans())
     def shortcut(self, src, kind, wc):
         self._do(self.w.shortcut, src, kind, wc)
+
+    @rule(src=SHORT_SRC, kind=st.sampled_from(['pretty', 'minify', 'pretty_indent']), wc=st.booleans())
+    def shortcut_same_text_both_flags(self, src, kind, wc):
+        # the same text through the shortcuts back to back with different comment flags
+        for flag in (wc, not wc, wc):
+            self._do(self.w.shortcut, src, kind, flag)
 
     def teardown(self):
         try:
